@@ -2,7 +2,7 @@
 //! identities, evaluated on the contents the session is known to believe.
 
 use crate::content::{Class, Content};
-use crate::world::{Effective, MISSING, Model, SLOTS, Side, companion_of};
+use crate::world::{Effective, MISSING, Model, SLOTS, Side};
 use std::collections::{BTreeMap, BTreeSet};
 use std::sync::Arc;
 use zydeco_session::{SourceGraph, SourceLoadError};
@@ -71,7 +71,7 @@ impl Reference {
                     }
                 }
             }
-            if let Some(companion) = companion_of(slot) {
+            if let Some(companion) = model.companion_of(slot) {
                 match model.effective(companion) {
                     | Effective::Absent => {}
                     | Effective::Unreadable => {
